@@ -1,5 +1,6 @@
 import HawkModel.DeparseStable
 import HawkModel.DeparseGlueTable
+import HawkModel.DeparseStmtStable
 /-!
   C17 — "Deparsed source is equivalent to the original", expression language, token level.
 
@@ -10,8 +11,12 @@ import HawkModel.DeparseGlueTable
                  assignment are variables; NO condition on grouping: the parser keeps no node for parentheses).
   `norm a`     : the tree `parse (print a)` returns;  `Equiv` : equality up to the retained spelling of integer
                  literals and folding of unary operators over integer literals (`canon`).
-  Not covered here (correspondence only): statements, getline and print redirection forms, regular expression
-  literals, string/char escapes, re-rendered floating-point constants, `__gN/__lN/__pN` renaming, nesting depth.
+  Statement level (`HawkModel/DeparseStmt.lean`): `printS` = lib/tree.c print_stmt, `parseStmt` = lib/parse.c
+  parse_statement ... parse_print, keyword and redirection spellings from the generated `Gen/Keywords.lean`;
+  `WFS` = the statement trees the parser can return, `normS` / `EquivS` = `norm` / `Equiv` in every expression position.
+  Not covered here (correspondence only): getline forms, print with a redirection (model and correspondence, no theorem),
+  the top level (globals, functions, pattern-action chains), regular expression literals, string/char escapes,
+  re-rendered floating-point constants, nesting depth.
 -/
 namespace Hawk.Props.C17
 open Hawk.Deparse Hawk.Gen.Precedence
@@ -114,5 +119,102 @@ example : parse (print (.bin .EXP (.int (-1) none) (.unr .MINUS (.int 1 (some "1
 example : parse (print (.bin .CONCAT (.var "a") (.int (-1) none))) = .ok (.bin .CONCAT (.var "a") (.int (-1) none)) := by
   rw [roundtrip_exact _ (by simp [WFparse, foldable])]
   simp [norm]
+
+/-! ## statement level -/
+
+/-- every statement tree the parser can return, printed by print_stmt at any depth with any number of enclosing locals,
+    is accepted by the statement parser, which returns exactly `normS s` (the same tree with every expression read back as the
+    expression theorems say) and consumes the whole text up to newlines.  Hence acceptance and, equal trees running equally,
+    identical behaviour.  Covers: null statement, blocks with @local declarations (the count is read back), if / if-else
+    including else-if ladders (`WFS` states the dangling-else condition the parser guarantees: the then-part of an if-else
+    does not end in an open if), while, do-while, for with every combination of empty parts, for-in, break, continue,
+    return, exit, @abort, next, nextfile, nextofile, delete, @reset, print / printf with argument lists, expression statements.
+    A last argument that is itself a `>`, `>>`, `|`, `||` node - `print (a > b);` - is covered: parse_print would take it apart
+    again, but its parenthesis bookkeeping (`closesAtEnd`: the closing parenthesis before the terminator closes the one the
+    argument began with) says the argument was parenthesised; that is proved from the balance of printed expressions (`balA`).
+    `_partial`: `WFS` leaves out print / printf WITH a redirection (model and correspondence cover it, the proof does not: the
+    node is read as one binary expression up to the `;` and then taken apart - `bin_inner_semi` proves the first half), and
+    getline (not in the model). -/
+theorem stmt_roundtrip_partial (s : Stmt) (h : WFS s) (outer d : Nat) :
+    ∃ r, parseStmt (sz s) outer (toksS (printS outer d s)) = .ok (normS s, r) ∧ dropNl r = [] := by
+  have := rtS s h outer d (sz s) [] (Nat.le_refl _) (by intro _; simp [dropNl, k1])
+  simpa [dropNl] using this
+
+/-- the same with more text behind the statement: nothing of it is consumed but newlines, unless the statement ends in an
+    open `if` and an `else` follows (the dangling else) -/
+theorem stmt_roundtrip_in_context_partial (s : Stmt) (h : WFS s) (outer d n : Nat) (rest : List Tok) (hn : sz s ≤ n)
+    (hd : openIf s = true → k1 (dropNl rest) ≠ some .ELSE) :
+    ∃ r, parseStmt n outer (toksS (printS outer d s) ++ rest) = .ok (normS s, r) ∧ dropNl r = dropNl rest :=
+  rtS s h outer d n rest hn hd
+
+/-- the dangling else is real: `if (a) if (b) x; else y;` printed from the tree whose OUTER if owns the else is read back
+    with the else on the inner if - which is why the parser never returns such a tree and `WFS` excludes it -/
+theorem dangling_else_witness :
+    toksS (printS 0 0 (.ife (.var "a") (.ift (.var "b") (.expr (.var "x"))) (.expr (.var "y"))))
+      = toksS (printS 0 0 (.ift (.var "a") (.ife (.var "b") (.expr (.var "x")) (.expr (.var "y"))))) ∧
+    ∃ r, parseStmt 4 0 (toksS (printS 0 0 (.ife (.var "a") (.ift (.var "b") (.expr (.var "x"))) (.expr (.var "y")))))
+      = .ok (.ift (.var "a") (.ife (.var "b") (.expr (.var "x")) (.expr (.var "y"))), r) := by
+  have e : toksS (printS 0 0 (.ife (.var "a") (.ift (.var "b") (.expr (.var "x"))) (.expr (.var "y"))))
+      = toksS (printS 0 0 (.ift (.var "a") (.ife (.var "b") (.expr (.var "x")) (.expr (.var "y"))))) := by decide +kernel
+  refine ⟨e, ?_⟩
+  rw [e]
+  obtain ⟨r, h, _⟩ := stmt_roundtrip_partial (.ift (.var "a") (.ife (.var "b") (.expr (.var "x")) (.expr (.var "y"))))
+    (by simp [WFS, WFparse, openIf]) 0 0
+  exact ⟨r, by simpa [normS, norm, sz] using h⟩
+
+/-- the tree read back is equivalent to the original one -/
+theorem stmt_equiv (s : Stmt) : EquivS (normS s) s := canon_normS s
+
+/-- printer idempotence: the text of the tree read back from the printed text does not change any more when it is printed,
+    read and printed again (`print (parse (print (parse (print s)))) = print (parse (print s))`, with `parse ∘ print = normS`) -/
+theorem stmt_print_stable (s : Stmt) (outer d : Nat) :
+    renderS (printS outer d (normS (normS s))) = renderS (printS outer d (normS s)) := by
+  rw [printS_norm_norm]
+
+/-- the same again for the deparse of the deparse: the second text is accepted too, the tree read back from it is equivalent to
+    the original, and the third text is the second one (`n` = any fuel that is enough for the tree) -/
+theorem stmt_roundtrip_twice_partial (s : Stmt) (h : WFS s) (outer d n : Nat) (hn : sz s ≤ n) :
+    ∃ r r', parseStmt n outer (toksS (printS outer d s)) = .ok (normS s, r) ∧
+      parseStmt n outer (toksS (printS outer d (normS s))) = .ok (normS (normS s), r') ∧
+      EquivS (normS (normS s)) s ∧
+      renderS (printS outer d (normS (normS s))) = renderS (printS outer d (normS s)) := by
+  obtain ⟨r, h1, _⟩ := rtS s h outer d n [] hn (by intro _; simp [dropNl, k1])
+  obtain ⟨r', h2, _⟩ := rtS (normS s) (WFS_norm s h) outer d n [] (by rw [sz_normS]; exact hn) (by intro _; simp [dropNl, k1])
+  refine ⟨r, r', by simpa using h1, by simpa using h2, ?_, by rw [printS_norm_norm]⟩
+  show canonS (normS (normS s)) = canonS s
+  rw [canon_normS, canon_normS]
+
+/-- keyword spellings: what print_stmt writes for a keyword (hawk_getkwname = the generated `kwtab[]`) is classified back
+    as that keyword by the lexer's table lookup - for every keyword print_stmt / the top level writes -/
+theorem keyword_spelling_reads_back :
+    [TK.XLOCAL, .XGLOBAL, .XRESET, .XABORT, .IF, .ELSE, .WHILE, .DO, .FOR, .BREAK, .CONTINUE, .RETURN, .EXIT, .NEXT, .NEXTFILE,
+      .NEXTOFILE, .DELETE, .PRINT, .PRINTF, .GETLINE, .GETBLINE, .IN, .FUNCTION, .BEGIN, .END].all
+      (fun k => kwKind (kwSpelling k) == k || (Hawk.Gen.Keywords.kwtab.lookup (kwSpelling k) == some k)) = true := by decide +kernel
+
+/-- redirection spellings: what print_printx writes for an output type (`print_outop_str[]`, generated) is one symbol of
+    the lexer's table, and parse_print maps that token back to the same output type -/
+theorem redirection_spelling_reads_back (r : Redir) : redirOfTok (tkOfSpelling r.str) = some r := by
+  cases r <;> decide +kernel
+
+/-- renaming: the names `__g<i>` / `__l<i>` / `__p<i>` the deparser gives to globals, locals and parameters determine kind and
+    number (injective), so the renamed program is the original one up to a bijective renaming of its variables -/
+theorem renaming_injective (c c' : Char) (i i' : Nat) (h : renName c i = renName c' i') : c = c' ∧ i = i' :=
+  renName_injective c c' i i' h
+
+/-- ... and the @local line print_stmt writes uses exactly these names, numbered from the count of the enclosing blocks -/
+theorem local_names_are_renamed (i : Nat) : (lclTok i).s = renName 'l' i := lclTok_is_renName i
+
+/-! non-vacuity of `WFS`: a block with locals, an else-if ladder with a null statement and an empty block as arms, loops, and
+    simple statements of every kind -/
+example : WFS
+    (.blk 2 (.cons (.ife (.var "a") (.expr (.ass .NONE (.var "x") (.int 1 (some "1"))))
+        (.ife (.var "c") .null (.ife (.var "d") (.blk 0 .nil) (.expr (.var "z")))))
+      (.cons (.whl (.bin .LT (.var "i") (.int 3 (some "3"))) (.expr (.incpst .PLUS (.var "i"))))
+      (.cons (.dowhl (.blk 0 (.cons .brk .nil)) (.var "j"))
+      (.cons (.for_ none none none .cont)
+      (.cons (.forin (.bin .IN (.var "k") (.var "A")) (.del (.idx "A" (.cons (.var "k") .nil))))
+      (.cons (.prt false (.cons (.int 1 (some "1")) (.cons (.bin .GT (.var "y") (.var "z")) .nil)) none)
+      (.cons (.reset (.var "A")) (.cons (.ret none) (.cons (.exit_ true (some (.var "q"))) (.cons (.nextfile true) .nil))))))))))) := by
+  simp [WFS, WFSL, WFO, WFparse, WFparseL, Stmt.dropped, openIf, isForinHead, Ast.isVar, grpAlone, foldable]
 
 end Hawk.Props.C17
